@@ -58,25 +58,69 @@ class Ref:
 
 
 class Slice:
-    """&[T] / &mut [T] / &str view onto a heap list."""
-    __slots__ = ("heap", "start", "len")
+    """&[T] / &mut [T] / &str view onto a heap list (esz = element size in bytes)."""
+    __slots__ = ("heap", "start", "len", "esz")
 
-    def __init__(self, heap, start, length):
+    def __init__(self, heap, start, length, esz=1):
         self.heap = heap
         self.start = start
         self.len = length
+        self.esz = esz
 
     def __repr__(self):
         return "Slice(%r)" % (self.heap[self.start:self.start + self.len],)
 
 
 class Ptr:
-    __slots__ = ("heap", "off", "esz")
+    """Raw pointer: byte offset `off` into a heap list whose elements are `helem` bytes wide;
+    `esz` is the pointee size (stride of add/offset)."""
+    __slots__ = ("heap", "off", "esz", "helem")
 
-    def __init__(self, heap, off, esz=1):
+    def __init__(self, heap, off, esz=1, helem=1):
         self.heap = heap
         self.off = off
         self.esz = esz
+        self.helem = helem
+
+    def nbytes(self):
+        return len(self.heap) * self.helem
+
+    def load(self, n):
+        if self.off < 0 or self.off + n > self.nbytes():
+            raise Panic("out-of-bounds %d-byte read at byte offset %d of a %d-byte buffer" % (n, self.off, self.nbytes()))
+        if self.helem == 1:
+            return [x & 0xFF for x in self.heap[self.off:self.off + n]]
+        out = []
+        for i in range(self.off, self.off + n):
+            e = self.heap[i // self.helem] & ((1 << (8 * self.helem)) - 1)
+            out.append((e >> (8 * (i % self.helem))) & 0xFF)
+        return out
+
+    def store(self, data):
+        n = len(data)
+        if self.off < 0 or self.off + n > self.nbytes():
+            raise Panic("out-of-bounds %d-byte write at byte offset %d of a %d-byte buffer" % (n, self.off, self.nbytes()))
+        for j, b in enumerate(data):
+            i = self.off + j
+            if self.helem == 1:
+                self.heap[i] = b & 0xFF
+            else:
+                k = i // self.helem
+                sh = 8 * (i % self.helem)
+                e = self.heap[k] & ((1 << (8 * self.helem)) - 1)
+                e = (e & ~(0xFF << sh)) | ((b & 0xFF) << sh)
+                self.heap[k] = e
+
+
+TYPE_SIZES = {"u8": 1, "i8": 1, "bool": 1, "u16": 2, "i16": 2, "u32": 4, "i32": 4, "u64": 8, "i64": 8, "usize": 8, "isize": 8,
+              "u128": 16, "i128": 16, "__m128i": 16, "__m256i": 32, "__m512i": 64}
+
+
+def pointee_size(ty):
+    t = ty.strip()
+    t = re.sub(r"^\*(const|mut) ", "", t)
+    t = t.rsplit("::", 1)[-1]
+    return TYPE_SIZES.get(t)
 
 
 class Vec:
@@ -332,6 +376,27 @@ class Interp:
             if "sv" in k:
                 return k["sv"]
             return k["v"]
+        if "adt" in k:
+            a = k["adt"]
+            vals = [f.get("sv", f["v"]) for f in a["fields"]]
+            path = self.P.norm(a["path"], False)
+            if path.endswith("ops::RangeInclusive") or path.endswith("range::RangeInclusive"):
+                from .stdmodel import RangeIncl
+
+                byname = {f["name"]: f.get("sv", f["v"]) for f in a["fields"]}
+                v = RangeIncl(byname["start"], byname["end"])
+            elif path.endswith("ops::Range"):
+                byname = {f["name"]: f.get("sv", f["v"]) for f in a["fields"]}
+                v = RangeIter(byname["start"], byname["end"])
+            else:
+                v = Adt(path, 0, path.rsplit("::", 1)[-1], vals)
+            if ty.startswith("&"):
+                hf = Frame.__new__(Frame)
+                hf.fn = None
+                hf.locals = [v]
+                hf.id = -1
+                return Ref(hf, 0, [])
+            return v
         if "zst" in k:
             if "fn" in k:
                 return ("fnitem", k)
@@ -371,10 +436,40 @@ class Interp:
                 ety = mm.group(1)
                 esz = 1 if ety == "bool" else INT_TYPES[ety][0] // 8
                 return wrap(int.from_bytes(bytes(raw[:esz]), "little"), ety)
+            pt = re.sub(r"^&(?:'\w+ )?(?:mut )?", "", ty)
+            a = self.P.adts.get(self.P.norm(pt, False))
+            if a is not None and a["kind"] == "Enum" and all(not v["fields"] for v in a["variants"]) and raw:
+                vi = raw[0]
+                if vi < len(a["variants"]):
+                    hf = Frame.__new__(Frame)
+                    hf.fn = None
+                    hf.locals = [Adt(self.P.norm(pt, False), vi, a["variants"][vi]["name"], [])]
+                    hf.id = -1
+                    return Ref(hf, 0, [])
             return Slice(raw, 0, len(raw))
         if "static" in k:
-            return ("static", k["static"])
+            return self.static_ref(k["static"])
         raise Unsupported("constant %r" % (k,))
+
+    def static_ref(self, path):
+        path = self.P.norm(path, False)
+        if path not in self.statics:
+            c = self.P.consts.get(path)
+            if c is None or "bytes" not in c:
+                raise Unsupported("static %s has no evaluated bytes" % path)
+            raw = bytes.fromhex(c["bytes"])
+            esz = c.get("esz", 1)
+            mm = re.findall(r"(u8|i8|u16|i16|u32|i32|u64|i64|usize|isize|u128|i128|bool)", c["ty"])
+            ety = mm[0] if mm else "u8"
+            vals = [wrap(int.from_bytes(raw[i:i + esz], "little"), ety) for i in range(0, len(raw), esz)]
+            if not c["ty"].startswith("["):
+                vals = vals[0]
+            hf = Frame.__new__(Frame)
+            hf.fn = None
+            hf.locals = [vals]
+            hf.id = -1
+            self.statics[path] = hf
+        return Ref(self.statics[path], 0, [])
 
     def operand(self, fr, op):
         if op[0] in ("c", "m"):
@@ -546,10 +641,14 @@ class Interp:
                         return v
                     raise Unsupported("unsize of %r" % (v,))
                 if isinstance(v, Ptr):
-                    m = re.search(r"__m(128|256|512)i", ty)
-                    return Ptr(v.heap, v.off, v.esz)
+                    ps = pointee_size(ty)
+                    return Ptr(v.heap, v.off, ps or v.esz, v.helem)
                 if isinstance(v, Slice):
-                    return Ptr(v.heap, v.start, 1)
+                    return Ptr(v.heap, v.start * v.esz, pointee_size(ty) or v.esz, v.esz)
+                if isinstance(v, Ref):
+                    t = self.read_path(v.frame, v.local, v.path)
+                    if isinstance(t, list):
+                        return Ptr(t, 0, pointee_size(ty) or 1, 1)
                 return v
             raise Unsupported("cast %s to %s" % (kind, ty))
         if k == "agg":
@@ -598,7 +697,7 @@ class Interp:
             b = b.vi
         if op == "Offset":
             if isinstance(a, Ptr):
-                return Ptr(a.heap, a.off + b * a.esz, a.esz)
+                return Ptr(a.heap, a.off + b * a.esz, a.esz, a.helem)
             raise Unsupported("Offset on %r" % (a,))
         if not isinstance(a, int) or not isinstance(b, int):
             raise Unsupported("binop %s on %r, %r" % (op, a, b))
@@ -682,7 +781,7 @@ class Interp:
                     return h(self, args)
                 return []
         body = P.fns.get(name)
-        if body is None and fr.fn.crate == "bin":
+        if body is None and (fr is None or fr.fn is None or fr.fn.crate == "bin"):
             body = P.fns.get("bin::" + name)
         if body is not None:
             if body.kind == "closure" and len(args) == 2 and isinstance(args[1], list) and body.nargs != 2:
